@@ -106,7 +106,23 @@ def make_prog(spec, i):
                 args = concgen.list_op(r, op, ti, si, init)
             steps.append({"op": op, "h": 0, "path": [], "args": args})
         threads.append(steps)
-    rsteps = [_read_step(r, kind, rh, rt, rpath) for _ in range(r.choice([1, 2]))]
+    atomic_reads = (spec["mode"] == "ctx" and info.strategy == "memory" and topo == "T2"
+                    and r.random() < 0.6)
+    if atomic_reads:
+        # shared-memory context, reads that neither iterate nor convert the shared container: these do not
+        # go through the lock-free merge of known finding D13 and must be linearizable
+        rsteps = []
+        for _ in range(r.choice([1, 2])):
+            if kind == "dict":
+                op = r.choice(["len", "getitem", "get", "contains"])
+                k_ = r.choice(list(init) + ["hot", "n00", "n10"])
+                args = [] if op == "len" else ([k_, "dflt"] if op == "get" else [k_])
+            else:
+                op = r.choice(["len", "getitem"])
+                args = [] if op == "len" else [r.choice([0, 1, -1])]
+            rsteps.append({"op": op, "h": rh, "path": [], "args": args})
+    else:
+        rsteps = [_read_step(r, kind, rh, rt, rpath) for _ in range(r.choice([1, 2]))]
     threads.append(rsteps)
     if topo == "T2" and r.random() < 0.2:
         # the file does not exist yet: the writer creates it while the reader (own object) reads
@@ -128,8 +144,10 @@ def make_prog(spec, i):
     if spec["mode"] == "ctx":
         prog["buffered"] = {"cap": None}
     shared = topo not in ("T2", "T2_missing") or (spec["mode"] == "ctx" and info.strategy == "memory")
-    return prog, {"topology": topo, "shared_tree": shared,
-                  "stratum": "shared_tree" if shared else "own_tree"}, r
+    if atomic_reads:
+        shared = False
+    return prog, {"topology": topo + ("_atomic_reads" if atomic_reads else ""),
+                  "shared_tree": shared, "stratum": "shared_tree" if shared else "own_tree"}, r
 
 
 def run_shard(spec):
